@@ -24,7 +24,7 @@ EXPLANATION = (
     "(which then reaches the join routine's own terminal handler, checked likewise). addCallbacks' same-level rule is "
     "respected: the lookup's errback does not see a failure of the metadata load started by its success arm."
 )
-SHARED = [('C16', ['R3'], 'eviction arms reset the member identity so that the rejoin can succeed'), ('C15', ['R6'], 'the leader can always complete the assignment (loads exactly the topics it was told are missing)')]
+SHARED = [('C11', ['R7'], 'the join request is given the time a rebalance may take: a slow rebalance is not mistaken for a silent broker (join, time out, back off, for ever)'), ('C16', ['R3'], 'eviction arms reset the member identity so that the rejoin can succeed'), ('C15', ['R6'], 'the leader can always complete the assignment (loads exactly the topics it was told are missing)')]
 ASSUMPTIONS = [
     "Twisted: a failure returned by an errback (or raised) propagates; returning anything else absorbs it",
     "a failure propagating out of a Deferred that an inlineCallbacks generator yields is raised at the yield",
@@ -343,6 +343,42 @@ def run(ctx):
     r.check(bool(rh) and len(done) == 1 and cj.dominates(rh, done[0].id), "%s#heartbeat-restarted-on-completion" % jas.qname,
             "join completion marks the member stable without (re)starting the heartbeat timer", where(jas, jas.node),
             "stable member never heartbeats: evicted after the session timeout")
+
+    # ---- R7 nobody but stop() cancels a group request in flight
+    r = ctx.rule("R7", "a group request in flight (heartbeat, join exchange) is cancelled only after `_stopping` was raised", 1, "A+B")
+    cci_ = prog.cls(COORD)
+    req_attrs = set()
+    for f_ in [x for x in prog.funcs.values() if x.cls is not None and cci_ in prog.mro(x.cls)]:
+        for x in walk_body_shallow(f_.body):
+            if isinstance(x, ast.Assign) and isinstance(x.value, ast.Call):
+                g_ = prog.resolve_call(f_, x.value)
+                if g_ is not None and g_.cls is not None and cci_ in prog.mro(g_.cls) and returns_deferred(prog, g_):
+                    for t_ in x.targets:
+                        if self_attr(t_):
+                            req_attrs.add(self_attr(t_))
+    r.info("request handles: %s" % sorted(req_attrs))
+    n_sites = 0
+    for f_ in sorted([x for x in prog.funcs.values() if x.cls is not None and cci_ in prog.mro(x.cls)], key=lambda x: x.qname):
+        cff = ctx.cfg(f_)
+        fff = ctx.facts(f_)
+        for n in cff.nodes:
+            for c in n.calls():
+                if call_name(c) != "cancel" or not isinstance(c.func, ast.Attribute):
+                    continue
+                ogs = value_origins(cff, n.id, c.func.value, params=f_.params) or []
+                attrs = {self_attr(e_) for _d, e_ in ogs if self_attr(e_)} | ({self_attr(c.func.value)} if self_attr(c.func.value) else set())
+                hit = sorted(a for a in attrs if a in req_attrs)
+                if not hit:
+                    continue
+                n_sites += 1
+                raised = [m.id for m in cff.nodes if isinstance(node_assign_value(m, "_stopping"), ast.Constant) and node_assign_value(m, "_stopping").value is True]
+                ok_ = ("self._stopping", True) in fff[n.id] or (bool(raised) and cff.dominates(raised, n.id))
+                r.check(ok_, "%s#cancel(%s)-only-when-stopping" % (f_.qname, hit[0]),
+                        "`%s` is cancelled without `_stopping` having been raised: the CancelledError it produces is not a Kafka error, the failure "
+                        "handlers treat it as fatal unless the member is stopping" % hit[0], where(f_, c),
+                        "a rejoin starts while a heartbeat is unanswered: the group member stops with CancelledError instead of rejoining")
+    if n_sites == 0:
+        r.ok("%s#no-cancel-of-request-handles" % COORD)
 
     # ---- R5 exits of the join routine
     r = ctx.rule("R5", "every early exit of the join routine is taken on a falsy step result or stopping", 4, "B+C")
